@@ -70,7 +70,20 @@ fn member_iteration(m: &Cfg, how: How) -> Result<(Vec<u8>, Vec<usize>), String> 
             Ok((bytes, lens))
         }
         leaf => {
-            let b = drive::build_bytes_zeroed(leaf, how).map_err(|e| format!("member {} cannot be built on its own: {}", leaf.shape(), e.render()))?;
+            // the member's own image is what it leaves in a buffer of the size it announces; a member whose writer
+            // returns another number than it announced is C06's finding on its own, but its image is still defined,
+            // and a compound that goes by the returned number no longer is the concatenation of its members
+            let b = with_writer(leaf, how, |w| match calc(w) {
+                WOut::Ok(n) if n <= (1 << 26) => {
+                    let mut buf = vec![0u8; n];
+                    match write(w, &mut buf) {
+                        WOut::Ok(_) => Ok(buf),
+                        other => Err(other),
+                    }
+                }
+                other => Err(other),
+            })
+            .map_err(|e| format!("member {} cannot be built on its own: {}", leaf.shape(), e.render()))?;
             let n = b.len();
             Ok((b, vec![n]))
         }
@@ -993,6 +1006,41 @@ pub fn check_c20(ctx: &mut Ctx, cfg: &Cfg) {
                 }
             }
             ctx.class("c20:routes-compared");
+            // "a one-member compound produces the same bytes as its counterpart", also where the counterpart is a
+            // member of a compound: every member wrapped in a compound of its own
+            if let Cfg::Compound(members) = cfg {
+                if !members.is_empty() {
+                    let wrapped = Cfg::Compound(members.iter().map(|m| Cfg::Compound(vec![m.clone()])).collect());
+                    let got = with_writer(&wrapped, How::default(), |w| {
+                        let r = calc(w);
+                        if let WOut::Ok(n) = &r {
+                            if *n > (1 << 22) {
+                                return (r, None);
+                            }
+                            let mut buf = vec![0u8; *n];
+                            match write(w, &mut buf) {
+                                WOut::Ok(m) if m == *n => (r, Some(buf)),
+                                other => (other, None),
+                            }
+                        } else {
+                            (r, None)
+                        }
+                    });
+                    let gb = got.1.clone().map(|b| canon_fir(cfg, b));
+                    if got.0 != first.0 || gb != fb {
+                        ctx.violate(
+                            "history-independent",
+                            kind,
+                            if got.0 != first.0 { "members-wrapped-in-compounds:size-or-error" } else { "members-wrapped-in-compounds:bytes" },
+                            || cfg_case("c20", cfg, How::default()),
+                            format!("members added directly: {} {}", first.0.render(), fb.as_ref().map(|b| hex(&b[..b.len().min(80)])).unwrap_or_default()),
+                            format!("each member wrapped in a one-member compound: {} {}", got.0.render(), gb.as_ref().map(|b| hex(&b[..b.len().min(80)])).unwrap_or_default()),
+                        );
+                        return;
+                    }
+                    ctx.class("c20:members-wrapped-compared");
+                }
+            }
         }
     }
     // list-adding calls preserve insertion order: if the image differs from the model's but equals
